@@ -19,7 +19,9 @@ FAM_QUICK = [
     ("one",      "S_One",      3, '{"all"}',              1),
     ("hole33",   "S_Hole33",   2, '{"of", "alt"}',        1),
     ("two33h1",  "S_Two33H1",  1, '{"all"}',              2),
-    ("two33",    "S_Two33",    2, '{"all"}',              4),
+    ("two33",    "S_Two33",    2, '{"all"}',              6),
+    ("hole44",   "S_Hole44",   2, '{"of", "alt"}',        8),
+    ("notch",    "S_Notch",    1, '{"all"}',              8),
 ]
 FAM_THOROUGH = [
     ("one",      "S_One",      4, '{"all"}',              1),
@@ -34,6 +36,8 @@ FAM_THOROUGH = [
     ("one4hh",   "S_One4HH",   2, '{"alt"}',              36),
     ("two33h2",  "S_Two33H2",  1, '{"all"}',              6),
     ("two43h2",  "S_Two43H2",  1, '{"of", "if", "alt"}',  6),
+    ("hole44",   "S_Hole44",   2, '{"of", "alt"}',        2),
+    ("notch",    "S_Notch",    2, '{"alt"}',              12),
 ]
 # documents of 2-3 relations sharing ways (MultipolygonDocs.tla): keep one case in `every` per family
 DOC_EVERY_QUICK = {"adj33": 1, "adj44": 4, "isl33": 2, "both333": 6}
@@ -209,8 +213,9 @@ def run(ctx):
     ctx.assumptions = [
         "geometry enters the specification through three facts the renderer guarantees: rings are convex and listed "
         "counter-clockwise, holes lie strictly inside their outer, outers are disjoint (polygons on circles, 6 magnitude "
-        "profiles incl. one straddling lon=0/lat=0 and two with a vertex at exactly lon=0 / lat=0; plus the grid placement "
-        "(case field grid): integer grid, hole vertices exactly level with non-extremal vertices of other outers to their "
+        "profiles incl. one straddling lon=0/lat=0 and two with a vertex at exactly lon=0 / lat=0; plus the placements chosen by the case field place: tiny (rings 1-5 coordinate steps "
+        "across at far anchors in all four lon/lat sign quadrants), concave (chevron outers and holes, second outer in the notch), "
+        "near (sibling rings one 1e-7 step apart), grid: integer grid, hole vertices exactly level with non-extremal vertices of other outers to their "
         "east / west, shared longitudes in column arrangements - every multi-outer shape with holes runs under both); numeric robustness near degeneracy is not explored",
         "member ways are untagged, the relation carries type=multipolygon|boundary (+ name)",
         "'the result is the same' is read as: same polygons with the same rings as cyclic sequences with direction "
